@@ -17,6 +17,8 @@ const (
 
 func (v Verdict) String() string { return [...]string{"accept", "reject", "either"}[v] }
 
+var acceptVisiting = map[*T]bool{}
+
 func worst(a, b Verdict) Verdict {
 	if a == MustReject || b == MustReject {
 		return MustReject
@@ -123,6 +125,13 @@ func Accept(cfg Cfg, t *T, opt string) (Verdict, string) {
 		}
 		return v, why
 	case KStruct:
+		if t.Named != "" {
+			if acceptVisiting[t] {
+				return MustAccept, "" // recursion: judged where the type was first entered
+			}
+			acceptVisiting[t] = true
+			defer delete(acceptVisiting, t)
+		}
 		v, ewhy := MustAccept, ""
 		if opt != "" {
 			v, ewhy = Either, "option-on-struct" // nothing documented
